@@ -50,6 +50,7 @@ var registry = map[string]runner{
 	"C13/split":        w13.Split,
 	"C01/mutate":       w01.Mutate,
 	"C01/hazards":      w01.Hazards,
+	"C01/deep":         w01.Deep,
 	"C01/lexical":      w01.Lexical,
 	"C01/corpus":       w01.Corpus,
 	"C03/trees":        w03.Run,
